@@ -274,7 +274,7 @@ func checkC13(c *Ctx, r *Report) {
 		var sites []string
 		n := 0
 		for _, fn := range c.W.SSAFuncs {
-			allInstrs(fn, false, func(f *ssa.Function, _ *ssa.BasicBlock, _ int, ins ssa.Instruction) {
+			allInstrsLocal(fn, false, func(f *ssa.Function, _ *ssa.BasicBlock, _ int, ins ssa.Instruction) {
 				if g, ok := ins.(*ssa.Go); ok {
 					n++
 					sites = append(sites, c.W.pos(g.Pos()))
